@@ -434,3 +434,64 @@ Section Sound.
           eapply Xii; eassumption.
   Qed.
 End Sound.
+
+(* ---------------------------------------------------------------- consequences *)
+Definition agrees_within (n : nat) (q : request) (es st : entities) : Prop :=
+  forall u, In u (reach es n (request_roots q)) -> find_entity u st = find_entity u es.
+
+Lemma slice_agrees n q es : agrees_within n q es (slice_at_level n q es).
+Proof.
+  intros u Hu. rewrite slice_find. rewrite (proj2 (uid_mem_In u _) Hu). reflexivity.
+Qed.
+
+(* sandwich: any store that contains the slice's entities with the same data *)
+Lemma between_sound sl q es st n te :
+  agrees_within n q es st -> te_ok sl q es te ->
+  level_ok (raction q) (N.of_nat n) te = true ->
+  eval sl q st (erase te) = eval sl q es (erase te).
+Proof.
+  intros Hag Hok Hl. apply (proj1 (sound_all sl q es st n Hag te)); [assumption|].
+  unfold level_ok, level_errors in Hl. destruct (snd (lv (raction q) (N.of_nat n) None te)); [reflexivity | discriminate].
+Qed.
+
+Lemma slice_sound sl q es n te :
+  te_ok sl q es te -> level_ok (raction q) (N.of_nat n) te = true ->
+  eval sl q (slice_at_level n q es) (erase te) = eval sl q es (erase te).
+Proof. apply between_sound. apply slice_agrees. Qed.
+
+(* the distance invariant on its own: an accepted dereference target of level l evaluates, on the
+   full store, to a value whose projection along the access path mentions only uids within l+1 hops *)
+Lemma target_distance sl q es n te path v v' :
+  te_ok sl q es te -> snd (lv (raction q) (N.of_nat n) (Some path) te) = [] ->
+  eval sl q es (erase te) = Ok v -> proj path v = Some v' ->
+  incl (value_uids v') (reach es (S (N.to_nat (fst (lv (raction q) (N.of_nat n) (Some path) te)))) (request_roots q)).
+Proof.
+  intros Hok He. apply (proj2 (sound_all sl q es es n (fun _ _ => eq_refl) te) path Hok He).
+Qed.
+
+(* lift to responses *)
+Lemma auth_core_ext (f g : policy -> res bool) ps :
+  (forall p, In p ps -> f p = g p) -> auth_core f ps = auth_core g ps.
+Proof.
+  unfold auth_core. generalize empty_buckets as b.
+  induction ps as [|p ps IH]; intros b H; [reflexivity|].
+  cbn [fold_left]. rewrite (H p (or_introl eq_refl)). apply IH. intros p' Hp'. apply H. right; assumption.
+Qed.
+
+(* a policy whose condition is the erasure of a typed expression accepted at level n *)
+Definition policy_level_ok (n : nat) (q : request) (es : entities) (p : policy) : Prop :=
+  exists te, erase te = pcondition p /\ te_ok (penv p) q es te /\ level_ok (raction q) (N.of_nat n) te = true.
+
+Lemma response_between ps q es st n :
+  agrees_within n q es st -> (forall p, In p ps -> policy_level_ok n q es p) ->
+  is_authorized ps q st = is_authorized ps q es.
+Proof.
+  intros Hag Hps. unfold is_authorized, authorize_with. f_equal. apply auth_core_ext.
+  intros p Hp. destruct (Hps p Hp) as (te & Ee & Hok & Hl). unfold eval_policy. rewrite <- Ee.
+  rewrite (between_sound (penv p) q es st n te Hag Hok Hl). reflexivity.
+Qed.
+
+Lemma response_slice ps q es n :
+  (forall p, In p ps -> policy_level_ok n q es p) ->
+  is_authorized ps q (slice_at_level n q es) = is_authorized ps q es.
+Proof. apply response_between. apply slice_agrees. Qed.
